@@ -290,7 +290,7 @@ def attempt_body(fmt, path, policy0, good, fresh):
     nm.default = policy0
     t0 = time.time()
     res = {}
-    gc.collect()
+    gc.freeze()  # child of a fork: everything inherited is permanent, later collections only scan what the call made
     fd0 = n_fds()
     with warnings.catch_warnings(record=True) as wl:
         warnings.simplefilter("always")
@@ -723,10 +723,24 @@ def run(ctx):
         "process-wide residue other than the policy is searched for by a fixed probe script compared with a fresh-process transcript; it is not enumerated from the source",
     ]
     ctx.partial_notes += ["partial: termination of the real interpreter is observed (timeout), not proved"]
-    rng.shuffle(jobs) if not ctx.replay else None
+    if not ctx.replay:
+        rng.shuffle(jobs)
+
+        def prio(j):
+            c = j.get("corruption", {})
+            if j.get("origin") == "pinned" or c.get("kind") in ("edge", "none"):
+                return 0
+            if c.get("must"):
+                return 1
+            if j.get("kind") == "history":
+                return 2
+            return 3
+        jobs.sort(key=prio)  # stable: what must always run comes first in every shard
     nshards = 1 if len(jobs) <= 4 else min(48, max(16, len(jobs) // 400))
     chunks = [jobs[i::nshards] for i in range(nshards)]
-    deadline = time.time() + max(30.0, ctx.time_left() - ctx.scale(25, 120))
+    # quick: stop generating after ~65 s whatever the machine load (the cut is recorded as budget.cut)
+    deadline = time.time() + (max(30.0, min(ctx.time_left() - 25, 65.0 - (time.time() - ctx.t0))) if ctx.tier == "quick"
+                              else max(30.0, ctx.time_left() - 120))
     shard.run_shards(ctx, shard_worker, [(c, deadline, i) for i, c in enumerate(chunks) if c])
 
 
